@@ -743,12 +743,17 @@ impl Built {
 /// the independent C08 oracle, mc-ledger/src/c08.rs): definite map, PlutusV1
 /// keyed by the byte string `00` with its cost model as a byte string holding
 /// an INDEFINITE list; PlutusV2/V3 keyed by 1/2 with definite lists.
-pub fn language_views(langs: &[u8]) -> Vec<u8> {
+pub fn language_views(langs: &[u8], v2_model: bool) -> Vec<u8> {
     let mut entries = vec![];
     for lang in [1u8, 2] {
         if langs.contains(&lang) {
-            // TxLab only knows the PlutusV1 model; other languages get it too so
-            // that the hash is at least well-formed (bases never use them).
+            if lang == 1 && v2_model {
+                // base B4 (Babbage, slot in the PlutusV2 epochs): the mainnet V2 model
+                entries.push((Node::uint(1), Node::array(params::PLUTUS_V2_COST_MODEL.iter().map(|c| Node::int(*c as i128)).collect())));
+                continue;
+            }
+            // elsewhere TxLab only knows the PlutusV1 model; other languages get it too so
+            // that the hash is at least well-formed (those bases never use them).
             entries.push((Node::uint(lang as u64), Node::array(params::PLUTUS_V1_COST_MODEL.iter().map(|c| Node::int(*c as i128)).collect())));
         }
     }
@@ -759,8 +764,14 @@ pub fn language_views(langs: &[u8]) -> Vec<u8> {
     Node::map(entries).to_vec()
 }
 
+/// Does the validator of `era` at `slot` (mainnet) know the PlutusV2 cost model of
+/// [`params::PLUTUS_V2_COST_MODEL`]?
+pub fn v2_model_at(era: Era, slot: u64) -> bool {
+    era == Era::Babbage && slot >= params::V2_MODEL_FROM_SLOT
+}
+
 /// Ledger formula: Blake2b-256(redeemer bytes ++ datum bytes (if any) ++ language views).
-pub fn script_integrity_hash(era: Era, wits: &Wits) -> Option<[u8; 32]> {
+pub fn script_integrity_hash(era: Era, slot: u64, wits: &Wits) -> Option<[u8; 32]> {
     let r = wits.redeemers_node();
     let d = wits.datums_node();
     if r.is_none() && d.is_none() {
@@ -785,7 +796,7 @@ pub fn script_integrity_hash(era: Era, wits: &Wits) -> Option<[u8; 32]> {
             langs.push(1u8);
         }
     }
-    p.extend(language_views(&langs));
+    p.extend(language_views(&langs, v2_model_at(era, slot)));
     Some(blake2b_256(&p))
 }
 
@@ -846,7 +857,7 @@ fn body_node(case: &Case, fee: u64, change: u64, total_coll: u64) -> Node {
     match t.script_data_hash {
         HashSpec::Absent => {}
         HashSpec::Right => {
-            if let Some(h) = script_integrity_hash(case.era, &t.wits) {
+            if let Some(h) = script_integrity_hash(case.era, case.env.slot, &t.wits) {
                 m.push((Node::uint(11), Node::bytes(&h)));
             }
         }
